@@ -293,6 +293,17 @@ def group_normal_form(repo, col, R="R-C11-groups"):
                         f"the entry is {v.short(90)}: members appear in the order of the add_to_group calls and can repeat; "
                         f"`net.<group>` then lists its cells in that order (the connectivity matrix is matched with the wrong cell pairs) "
                         f"and a repeated member is selected twice", node=w.node)
+                # an EXTENSION keeps the members the group already has: on the path where the name is registered, the new entry
+                # is built from the old one
+                is_new = [g_ for g_ in w.guards if g_.op == "cmp" and g_.name == "not in" and len(g_.args) == 2 and
+                          g_.args[1].op == "attr" and g_.args[1].name == "groups" and g_.args[0].key() == w.key.key()]
+                if not is_new and m.name == "add_to_group":
+                    keeps = T.find(v, lambda x: (x.op == "sub" and x.args[0].op == "attr" and x.args[0].name == "groups" and
+                                                 x.args[1].key() == w.key.key()) or
+                                   (x.op == "mcall" and x.name in ("get", "setdefault", "pop") and x.args and x.args[0].op == "attr" and
+                                    x.args[0].name == "groups" and len(x.args) > 1 and x.args[1].key() == w.key.key())) is not None
+                    col.check(keeps, R, m, f"{m.name}: an existing group is extended, not replaced", "old members + rows in view",
+                              f"for a name that is already a group the entry becomes {v.short(70)}: the members added earlier are dropped", node=w.node)
     if n < 2:
         raise AnalysisError(f"only {n} writes into the group registry found")
 
